@@ -142,7 +142,12 @@ pub fn c19_variants(tier: &str, words: &[u32]) -> Vec<Variant> {
         let mut sb = SeedBuilder::new(&s);
         sb.ev(Ev::Apply(vec![al(id(B, 0)), mm(id(A, 0), 0, State::Alive)], true));
         s.seed_hists.push(sb.done());
-        let l = if th { lim(6, 5, 6_000_000, 600.0) } else { lim(4, 3, 1_500_000, 40.0) };
+        // more Down records than an announce-to-down round picks, one of them
+        // a previous identity of the instance itself
+        let mut sb = SeedBuilder::new(&s);
+        sb.ev(Ev::Apply(vec![al(id(B, 0)), mm(id(C, 0), 0, State::Down), mm(id(D, 0), 0, State::Down), mm(id(A, 0), 0, State::Alive)], true));
+        s.seed_hists.push(sb.done());
+        let l = if th { lim(6, 5, 6_000_000, 600.0) } else { lim(4, 3, 1_500_000, 120.0) };
         out.push(Variant { spec: s, lim: l });
     }
     out
@@ -245,6 +250,8 @@ fn base_alpha() -> Alpha {
             vec![mm(id(C, 0), 0, State::Down)],
             vec![mm(id(A, 0), 0, State::Alive)],
             vec![mm(id(A, 2), 0, State::Down)],
+            // a NEWER identity of the instance's own address, claimed alive
+            vec![mm(id(A, 2), 0, State::Alive)],
             // the active set empties and refills within one call
             vec![mm(id(B, 0), 0, State::Down), mm(id(C, 0), 0, State::Down), mm(id(D, 0), 0, State::Alive)],
         ],
@@ -278,7 +285,7 @@ pub fn c08_variants(tier: &str, words: &[u32]) -> Vec<Variant> {
         // notification mirror must keep matching the getters even then
         s.alpha.api.push(Ev::ChangeId(id(B, 7).with(pol)));
         s.seed_hists = formed_seeds(&s, &["two-peers", "mid-probe", "suspected", "suspected-single", "defunct", "renamed", "peer-down"]);
-        let l = if th { lim(5, 4, 8_000_000, 900.0) } else { lim(3, 3, 2_000_000, 40.0) };
+        let l = if th { lim(5, 4, 8_000_000, 900.0) } else { lim(3, 3, 2_000_000, 120.0) };
         out.push(Variant { spec: s, lim: l });
     }
     out
@@ -343,7 +350,7 @@ pub fn c09_variants(tier: &str, words: &[u32]) -> Vec<Variant> {
         sb.ev(Ev::Apply(vec![mm(id(B, 1), 0, State::Down)], true));
         sb.fire(|t| matches!(t, TimerKey::RemoveDown(i) if i.addr == B));
         s.seed_hists.push(sb.done());
-        let l = if th { lim(5, 4, 8_000_000, 900.0) } else { lim(3, 3, 2_000_000, 40.0) };
+        let l = if th { lim(5, 4, 8_000_000, 900.0) } else { lim(3, 3, 2_000_000, 120.0) };
         out.push(Variant { spec: s, lim: l });
     }
     out
@@ -388,7 +395,7 @@ pub fn c10_variants(tier: &str, words: &[u32]) -> Vec<Variant> {
         a.change_gens = vec![1];
         s.alpha = a;
         s.seed_hists = formed_seeds(&s, &["two-peers", "mid-probe", "defunct"]);
-        let l = if th { lim(5, 5, 8_000_000, 900.0) } else { lim(3, 3, 2_000_000, 40.0) };
+        let l = if th { lim(5, 5, 8_000_000, 900.0) } else { lim(3, 3, 2_000_000, 120.0) };
         out.push(Variant { spec: s, lim: l });
     }
     out
@@ -450,7 +457,7 @@ pub fn c11_variants(tier: &str, words: &[u32]) -> Vec<Variant> {
         }
         sb.fire(|t| matches!(t, TimerKey::ProbeRandomMember(_)));
         s.seed_hists.push(sb.done());
-        let l = if th { lim(7, 6, 10_000_000, 1200.0) } else { lim(4, 4, 2_500_000, 45.0) };
+        let l = if th { lim(7, 6, 10_000_000, 1200.0) } else { lim(4, 4, 2_500_000, 120.0) };
         out.push(Variant { spec: s, lim: l });
     }
     out
@@ -466,7 +473,7 @@ pub fn c11(tier: &str) -> Report {
         "timeout_firings_by_case",
         json!({"effective": rows[0], "cancelled_by_refutation_or_rename": rows[1], "stale_epoch_or_duplicate": rows[2], "already_down": rows[3]}),
     );
-    if rep.violations.is_empty() && rows[..3].iter().any(|r| *r == 0) {
+    if rep.violations.is_empty() && rep.exhaustive && rows[..3].iter().any(|r| *r == 0) {
         rep.machinery(format!("vacuous: a case-table row was never exercised: {rows:?}"));
     }
     rep
@@ -518,7 +525,7 @@ pub fn c13_variants(tier: &str, words: &[u32]) -> Vec<Variant> {
                 ..Alpha::default()
             };
             s.seed_hists = formed_seeds(&s, &["one-peer", "two-peers", "mid-probe"]);
-            let l = if th { lim(8, 7, 10_000_000, 900.0) } else { lim(5, 5, 2_000_000, 30.0) };
+            let l = if th { lim(8, 7, 10_000_000, 900.0) } else { lim(5, 5, 2_000_000, 120.0) };
             out.push(Variant { spec: s, lim: l });
         }
     }
@@ -555,7 +562,7 @@ pub fn c13_variants(tier: &str, words: &[u32]) -> Vec<Variant> {
             ..Alpha::default()
         };
         s.seed_hists = formed_seeds(&s, &["one-peer", "two-peers", "mid-probe", "aged-254", "aged-255"]);
-        let l = if th { lim(7, 6, 8_000_000, 900.0) } else { lim(4, 4, 1_500_000, 30.0) };
+        let l = if th { lim(7, 6, 8_000_000, 900.0) } else { lim(4, 4, 1_500_000, 120.0) };
         out.push(Variant { spec: s, lim: l });
     }
     out
